@@ -30,6 +30,32 @@ def read_outputs(path):
     return {k: re.sub(rb"(?m)^//! Source: .*$", b"//! Source: <masked>", v) for k, v in files.items()}
 
 
+def freeform_spec():
+    """free-form JSON values (objects in example / default / const / enum / x-* extensions) at every position that
+    carries one, equal inline schemas whose free-form values are written in different key orders, and paths with
+    several undeclared template variables"""
+    pg = lambda d: {"type": "object", "properties": {"limit": {"type": "integer"}, "offset": {"type": "integer"}}, "default": d, "x-ui": {"b": [1, {"z": 1, "a": 2}], "a": "x"}}
+    schemas = {
+        "Product": {"type": "object", "x-meta": {"zeta": 1, "alpha": {"k2": 2, "k1": 1}}, "properties": {
+            "paging": pg({"limit": 20, "offset": 0}),
+            "attrs": {"type": "object", "additionalProperties": {"type": "integer"}, "example": {"b": 1, "a": 2, "c": {"y": 1, "x": 2}}},
+            "conf": {"type": "object", "default": {"retries": 3, "backoff": {"max": 10, "base": 2}}, "additionalProperties": True},
+            "fixed": {"const": {"z": 1, "a": 2}},
+            "choice": {"enum": [{"k": 1, "j": 2}, {"b": "x", "a": "y"}, "plain"]},
+            "tags": {"type": "array", "items": {"type": "string"}, "example": ["b", "a"], "default": ["z", "y"]}}},
+        "Order": {"type": "object", "properties": {
+            "paging": pg({"offset": 0, "limit": 20}),
+            "attrs": {"type": "object", "additionalProperties": {"type": "integer"}, "examples": [{"q": 1, "p": 2}]}}},
+    }
+    paths = {
+        "/a/{x}/{y}/{z}": {"get": {"operationId": "three_vars", "responses": {"200": {"description": "ok", "content": {"application/json": {"schema": {"$ref": "#/components/schemas/Product"}, "example": {"z": 1, "a": 2}}}}}}},
+        "/b/{one}/c/{two}/{three}/{four}": {"get": {"operationId": "four_vars", "responses": {"200": {"description": "ok", "content": {"application/json": {"schema": {"$ref": "#/components/schemas/Order"}}}}}},
+                                            "delete": {"operationId": "four_vars_del", "parameters": [{"name": "f", "in": "query", "schema": {"type": "object", "additionalProperties": {"type": "string"}}, "example": {"m": "1", "l": "2"}}],
+                                                       "responses": {"204": {"description": "gone"}}}},
+    }
+    return {"openapi": "3.1.0", "info": {"title": "free", "version": "1", "x-info": {"b": 1, "a": 2}}, "paths": paths, "components": {"schemas": schemas}}
+
+
 def main(tier, seed, replay=None):
     res = Result("C11", tier, seed)
     vlib.build_repo()
@@ -51,6 +77,7 @@ def main(tier, seed, replay=None):
     for i in range(12 if tier == "quick" else 80):
         s, _ = specgen.gen_spec(seed * 100 + i)
         corpus.append((f"gen{i}", s))
+    corpus.append(("freeform", freeform_spec()))
     if replay:
         r = json.load(open(replay))
         corpus = [("replay", r["spec"])]
@@ -59,6 +86,8 @@ def main(tier, seed, replay=None):
         variants = [("base", json.dumps(spec), "json"), ("rerun", json.dumps(spec), "json"),
                     ("perm1", json.dumps(shuffle_keys(spec, rnd)), "json"), ("perm2", json.dumps(shuffle_keys(spec, rnd), indent=3), "json"),
                     ("yaml", yaml.safe_dump(shuffle_keys(spec, rnd), sort_keys=False, allow_unicode=True), "yaml")]
+        if name in ("freeform", "replay"):
+            variants += [(f"rerun{k}", json.dumps(spec), "json") for k in range(2, 7)]
         for mode in MODES:
             for vname, text, ext in variants:
                 jobs.append((name, mode, vname, text, ext))
@@ -81,7 +110,7 @@ def main(tier, seed, replay=None):
     for name, spec in corpus:
         for mode in MODES:
             rc0, base, t0 = by[(name, mode, "base")]
-            for v in ("rerun", "perm1", "perm2", "yaml"):
+            for v in ["rerun", "perm1", "perm2", "yaml"] + ([f"rerun{k}" for k in range(2, 7)] if name in ("freeform", "replay") else []):
                 rc, outs, t = by[(name, mode, v)]
                 n_cmp += 1
                 if rc != rc0:
